@@ -67,7 +67,8 @@ let cfg_of (config : string) : fscfg =
   match String.split_on_char ',' config with
   | sh :: q :: _ when String.length q >= 3 ->
     { f_base = base_path; f_shard = shard_of sh; f_esc = b32enc;
-      q_no_escape = (q.[1] = '1'); q_empty_ok = (q.[2] = '1') }
+      q_no_escape = (q.[1] = '1'); q_empty_ok = (q.[2] = '1');
+      q_mkdir_exist_fails = (String.length q < 4 || q.[3] = '1') }
   | sh :: _ -> pinned_cfg base_path (shard_of sh)
   | [] -> pinned_cfg base_path R12
 
